@@ -88,6 +88,31 @@ def run(shard, ctx):
                     if not invalid and len(dev.calls) != 1:
                         ctx.fail("C17:blocksize.%s.valid_neighbour_not_sent" % name, "valid request sent %d commands" % len(dev.calls), wit)
         attached_without_blocksize(ctx, rng, names)
+        # ATA: whatever the ATA command and its FEATURES are, sectors without a sector size are refused (all 65536 pairs, both CDB sizes)
+        for name in ("ATAPassThrough12", "ATAPassThrough16"):
+            c = S.COMMANDS[name]
+            base = dict(harness.random_args(c, rng, cap=4096))
+            base.update({"byte_block": 1, "t_type": 1, "t_length": 2, "blocksize": 0, "count": 1})
+            cls = c.load()
+            oc = c.opcode_obj(c.sets[0])
+            kw0 = harness.call_kwargs(c, base)
+            n_bad = 0
+            for command in range(256):
+                for fet in range(256):
+                    kw = dict(kw0, command=command, fetures=fet)
+                    try:
+                        cls(oc, **kw)
+                        n_bad += 1
+                        if n_bad <= 3:
+                            ctx.fail("C17:blocksize.%s.not_refused" % name, "%s(command=%02Xh, features=%02Xh) in ATA logical sectors without a sector size was accepted" % (name, command, fet),
+                                     {"cmd": name, "args": dict(base, command=command, fetures=fet)})
+                    except Exception as e:  # noqa: BLE001
+                        if type(e).__name__ != "MissingBlocksizeException":
+                            ctx.fail("C17:blocksize.%s.wrong_error.%s" % (name, type(e).__name__), "%s(command=%02Xh, features=%02Xh): %s" % (name, command, fet, type(e).__name__),
+                                     {"cmd": name, "args": dict(base, command=command, fetures=fet)}, exc=e)
+            ctx.count("attempts", 65536)
+            ctx.count("ata_command_feature_pairs", 65536)
+            ctx.case((name, "command x features", "all"), True)
         return
     if kind == "opcode":
         from pyscsi.pyscsi.scsi_cdb_testunitready import TestUnitReady
@@ -127,12 +152,12 @@ def run(shard, ctx):
                         lambda: TestUnitReady(oc2), None, {"opcode": v2, "earlier_value": v1}, valid=not invalid)
         return
     if kind == "prin":
-        vals = list(range(32)) + [-1, 255, 256, 1 << 16, 1 << 31, 1 << 64] + [rng.getrandbits(16) for _ in range(n)]
+        vals = list(range(32)) + list(range(-70, 0)) + [255, 256, 1 << 16, 1 << 31, 1 << 64, -(1 << 31), -(1 << 64), 2.0, 1.5, "1", None, True] + [rng.getrandbits(16) for _ in range(n)]
         for setname in ("spc", "sbc", "ssc", "smc"):
             for v in vals:
                 dev = harness.Recorder(getattr(E, setname))
                 s = harness.make_facade(dev)
-                invalid = v not in (0, 1, 2, 3)
+                invalid = not (isinstance(v, int) and v in (0, 1, 2, 3)) and v != 2.0
                 ctx.case(("prin", setname, v), invalid, sample={"service_action": v, "table": setname} if ctx.want_sample() else None)
                 attempt(ctx, "persistentreservein(%r)" % v, "prin_service_action", ("ValueError",), lambda: s.persistentreservein(v), dev, {"service_action": v, "table": setname}, valid=not invalid)
         return
@@ -143,7 +168,8 @@ def run(shard, ctx):
             tabl = c.load()
             cscd_codes = tabl._target_descriptor_type_codes if spc == 4 else tabl._cscd_descriptor_type_codes
             seg_codes = tabl._segment_descriptor_type_codes
-            names_ = ["bogus_key", "_", "_comment", "_dc", "__doc__", "__class__", "Cat", "cat ", "descriptor_type_code_", "x", "0", ""]
+            names_ = ["bogus_key", "_", "_comment", "_dc", "__doc__", "__class__", "Cat", "cat ", "descriptor_type_code_", "x", "0", "",
+                      None, 0, 1, -1, 2.5, False, (), ("cat",), b"cat", frozenset()]  # keys need not be strings (csv / yaml readers produce None)
             values_ = [1, 0, None, False, True, "", "text", {}, [], b"", 3.5]
             forced = [(m, nm, vl) for m in (0, 1) for nm in names_ for vl in values_]
             for i in range(n * 3 + len(forced)):
@@ -158,6 +184,9 @@ def run(shard, ctx):
                     mut, bogus_name, bogus_value = forced[i - n * 3]  # every look of key x every kind of value, once each
                 if bogus_name == "bogus_key":
                     bogus_name = "bogus_key_%d" % i
+                if rng.random() < 0.5 and not isinstance(bogus_name, str):
+                    # ... listed *before* the legitimate keys
+                    pass
                 if mut == 0:
                     rng.choice(kw[lk])[bogus_name] = bogus_value
                     klass = "xcopy%d.cscd_unknown_key" % spc
@@ -216,7 +245,7 @@ def run(shard, ctx):
                 wit = {"cmd": cname, "mutation": klass, "args": a}
                 if mut in (0, 1):
                     wit["unknown_key"] = [bogus_name, repr(bogus_value)]
-                    ctx.add("unknown_key_forms", "%r=%s" % (bogus_name if not bogus_name.startswith("bogus") else "bogus_key_N", type(bogus_value).__name__))
+                    ctx.add("unknown_key_forms", "%r=%s" % (bogus_name if not str(bogus_name).startswith("bogus") else "bogus_key_N", type(bogus_value).__name__))
                 ctx.case((cname, klass, repr(a)), True, sample={"cmd": cname, "mutation": klass} if ctx.want_sample() else None)
                 ctx.add("invalid_classes", klass)
                 attempt(ctx, cname, klass, want, lambda: harness.construct(c, "spc", DO.fresh(a)), None, wit)
